@@ -7,7 +7,7 @@ import LopdfModel.Model.Outlines
   ok[,digest] | err | panic@<site> | diverge (fuel exhausted in an unguarded walker).
 -/
 namespace Lopdf.Driver.C13
-open Lopdf Lopdf.Codec Lopdf.Gen
+open Lopdf Lopdf.Codec Lopdf.Gen Lopdf.Q13
 
 /-- bytes the worker process may still allocate (harness: `ulimit -v`); generated `Count`
 values stay far away from this boundary on both sides -/
@@ -74,7 +74,7 @@ def evalField (tr : Dict) (os : Objects) (fuel : Nat) (field : String) : String 
   | "enc" => outS (optO (fun d => toString d.length) (getEncrypted tr os))
   | "cf" => let m := getCryptFilters tr os
             okS (toString m.length ++ String.join (m.map fun (k, _) => ":" ++ hexTok k))
-  | "iter" => pagesStr (collectPages 8 MEM_MAX tr os)
+  | "iter" => outS ((collectPages 8 MEM_MAX tr os).map fun (l, c) => toString l.length ++ "," ++ toString c ++ "," ++ idsStr l)
   | "pages" => pagesStr (getPages MEM_MAX tr os)
   | "go" => outS (optO variant (getObject os t))
   | "gom" => outS ((getObjectMut os t).map variant)
